@@ -344,6 +344,62 @@ fn relative_cases() -> Vec<(Case, String)> {
 }
 
 // ---------------------------------------------------------------------------------------------
+// family `block-local`: a constant (or a condition) is written as a block that assigns a local variable; the local is
+// named like a global constant that another condition reads, or not. A block's locals end with the block: the model
+// reads the block as its value.
+
+fn block_local_cases() -> Vec<(Case, String)> {
+    let mut out = vec![];
+    let m = |k: u8| Item::Marker(k);
+    let orders: [[usize; 3]; 6] = [[0, 1, 2], [1, 0, 2], [1, 2, 0], [2, 1, 0], [0, 2, 1], [2, 0, 1]];
+    for local in ["count", "tmp"] {
+        for order in orders {
+            for define in 0..3usize {
+                for cond_chain in 0..3usize {
+                    // 0 none, 1 a chain with a block condition before the main chain, 2 after it
+                    let consts = [konst("count", int(3)), konst("mask", int(255)), konst("size", E::bin(BinOp::Mul, v("count"), int(2)))];
+                    let mut prog = vec![m(0x10)];
+                    for k in order {
+                        prog.push(consts[k].clone());
+                    }
+                    let block_chain = Item::If(vec![(E::Bool(true), vec![m(0xcc)])], Some(vec![m(0xdd)]));
+                    if cond_chain == 1 {
+                        prog.push(block_chain.clone());
+                    }
+                    prog.push(Item::If(vec![(gt(v("size"), int(10)), vec![m(0xb1)])], Some(vec![m(0x51)])));
+                    prog.push(Item::If(vec![(gt(v("count"), int(5)), vec![m(0xb2)])], Some(vec![m(0x52)])));
+                    if cond_chain == 2 {
+                        prog.push(block_chain.clone());
+                    }
+                    prog.push(usen("size"));
+                    prog.push(usen("mask"));
+                    let defines: Vec<(String, DV)> = match define {
+                        0 => vec![],
+                        1 => vec![("count".to_string(), DV::Int(1))],
+                        _ => vec![("count".to_string(), DV::Int(-1))],
+                    };
+                    let mut text = String::new();
+                    for line in text_of(&prog).lines() {
+                        let t = if line == "mask = 255" {
+                            format!("mask = {{ {l} = 8, (1 << {l}) - 1 }}", l = local)
+                        } else if line == "#if true" {
+                            format!("#if {{ {l} = 8, {l} > 5 }}", l = local)
+                        } else {
+                            line.to_string()
+                        };
+                        text += &t;
+                        text.push('\n');
+                    }
+                    let coord = format!("local-{} order{:?} define{} cond_chain{}", local, order, define, cond_chain);
+                    out.push((Case { family: "block-local", coord, prog, defines }, text));
+                }
+            }
+        }
+    }
+    out
+}
+
+// ---------------------------------------------------------------------------------------------
 // family `tree`: condition trees
 
 #[derive(Clone, Debug)]
@@ -1060,6 +1116,10 @@ pub fn run(ctx: &Ctx) -> Report {
     if want("relative") {
         let rels = relative_cases();
         rep.absorb(par_cases(&rels, |(c, text), l| judge_text(c, text.clone(), 30, l)));
+    }
+    if want("block-local") {
+        let bl = block_local_cases();
+        rep.absorb(par_cases(&bl, |(c, text), l| judge_text(c, text.clone(), 30, l)));
     }
     if want("long") {
         let longs = long_cases();
